@@ -10,7 +10,7 @@
 // for every transaction its block and the addresses it touches). Visor.GetTransactions is
 // then queried for address sets x confirmed filter x sort order x page sizes x page numbers.
 //
-// Leg A (HTTP API /api/v2/transactions): TODO(orchestrator) - see apiLegTODO below.
+// Leg A (HTTP API /api/v2/transactions): runAPILeg in api.go (real node process via lib/node).
 package main
 
 import (
@@ -644,7 +644,7 @@ func main() {
 	if legs == "" || strings.Contains(legs, "visor") {
 		legVisor(r)
 	}
-	apiLegTODO(r)
+	runAPILeg(r)
 
 	r.Sample(map[string]interface{}{"leg": "function", "n": 25, "size": 10, "page": 3, "expect": "[20,25) of 3 pages"})
 	r.Sample(map[string]interface{}{"leg": "function", "n": 25, "size": 10, "page": "1844674407370955163 (= floor(2^64/10)+2)", "expect": "empty; 10*(page-1) = 2^64+14 does not fit 64 bits"})
